@@ -156,6 +156,8 @@ func (g *jsonGen) subtypeDoc() string {
 		`"i":null`, `"j":true`, `"k":{"log":{"version":1}}`, `"l":[[],[{}]]`, `"m":"Feature"`, `"version":"2.0"`,
 		`"accessors":[1]`, `"scenes":[{"nodes":[0]}]`, `"features":[]`, `"features":[{"type":"Feature","geometry":null}]`,
 		`"n":{"a":{"b":{"c":[1,{"d":2}]}}}`, `"o":-1.5e3`,
+		// numbers that a scanner may leave half-read at a cut, as NON-first elements
+		`"coordinates":[[102.5,-0.5],[1e3,-2.25E-2],[0,-1]]`, `"d2":[0,-1.5e-3,2E+5,-7]`, `"hash":"C#"`, `"esc":"a]\\b#"`,
 		// strings and keys ending in an escaped backslash (the closing quote follows a backslash byte)
 		`"p":"C:\\data\\"`, `"q":"\\"`, `"r":"x\\\\"`, `"s":"\\\""`, `"t\\":1`, `"u":["\\",{"v":"\\"}]`,
 		// siblings nested deeper than any fixed small path buffer
